@@ -18,6 +18,7 @@
 (*                            (comment-only blocks may or may not deliver  *)
 (*                            an empty event: the property does not say)   *)
 (*  C18.bytes_concat          iter_bytes: concatenation # input            *)
+(*  C18.streams_interfere     (pair traces, see below)                     *)
 (* Every trace is consumed completely and yields exactly one VERDICT line. *)
 (***************************************************************************)
 EXTENDS StreamCore, TLC, Json, IOUtils
@@ -43,10 +44,11 @@ DiffField(dec, obs, exp) ==
        ELSE "retry"
 
 \* the acceptable whole-stream meanings for a helper (more than one only where the property is silent)
-Meanings(dec, mode, bytes) ==
-  CASE dec = "iter_sse" -> {Events(bytes), EventsX(bytes, FALSE)}
-    [] dec = "iter_sse_events_text" -> {DataTexts(Events(bytes))}
-    [] dec = "iter_ndjson" -> {Records(bytes)}
+\* charset: the decode-step parameter ("utf8" | "latin1") that corresponds to the Content-Type the response carried
+Meanings(dec, charset, mode, bytes) ==
+  CASE dec = "iter_sse" -> {EventsXC(charset, bytes, TRUE), EventsXC(charset, bytes, FALSE)}
+    [] dec = "iter_sse_events_text" -> {DataTexts(EventsXC(charset, bytes, TRUE))}
+    [] dec = "iter_ndjson" -> {RecordsC(charset, bytes)}
     [] dec = "iter_bytes" -> {<<bytes>>}
 
 \* classification of an output `o` that differs from the reference item list `ref`
@@ -66,8 +68,8 @@ JudgeDec(t, K, d) ==
       r0 == CHOOSE r \in 1..N : ch[r] = <<>>
       u == d.idx[r0]
       U == d.outs[u]
-      M == Meanings(d.name, t.mode, t.bytes)
-      ref == IF d.name = "iter_sse" THEN Events(t.bytes) ELSE CHOOSE m \in M : TRUE
+      M == Meanings(d.name, t.charset, t.mode, t.bytes)
+      ref == IF d.name = "iter_sse" THEN EventsXC(t.charset, t.bytes, TRUE) ELSE CHOOSE m \in M : TRUE
       used == {d.idx[r] : r \in 1..N}
       first(k) == CHOOSE r \in 1..N : d.idx[r] = k /\ \A q \in 1..(r - 1) : d.idx[q] # k
       kindsOf(r) == {K[ch[r][i]] : i \in 1..Len(ch[r])}
@@ -88,7 +90,9 @@ JudgeDec(t, K, d) ==
           kindsOf(first(k)), "none", ch[first(k)], U.items)
        : k \in {j \in used : d.outs[j] # U}}
     \cup
-    (IF specOK(U) THEN {}
+    \* the whole-stream meaning is a property clause only where the statement applies (UTF-8 event streams:
+    \* t.judgeSpec); under other declared charsets only the chunk-independence relation above is judged
+    (IF specOK(U) \/ ~t.judgeSpec THEN {}
      ELSE {Fail(d.name, Classify(U, ref, "C18.differs_from_spec"), "spec", U.err, {},
                 IF U.err # "none" THEN "error" ELSE DiffField(d.name, U.items, ref), <<>>, ref)})
 
@@ -101,22 +105,73 @@ Verdict(t) ==
       inner == Cardinality({r \in 1..N : \E i \in 1..Len(ch[r]) : K[ch[r][i]] # "at_rest"})
       byKind == [k \in KindNames |-> Cardinality({r \in 1..N : \E i \in 1..Len(ch[r]) : K[ch[r][i]] = k})]
   IN [id |-> t.id,
+      kind |-> "single",
       fails |-> fails,
+      \* model / code disagreement that no clause depends on (reported as DRIFT)
+      specdrift |-> /\ ~t.judgeSpec
+                    /\ \E i \in 1..Len(t.dec) :
+                         LET d == t.dec[i] U == d.outs[d.idx[1]] IN
+                         d.name # "iter_bytes" /\ ~(U.err = "none" /\ U.items \in Meanings(d.name, t.charset, t.mode, t.bytes)),
       nruns |-> N,
       inner |-> inner,
       byKind |-> byKind,
       nitems |-> Len(Expected(t.mode, t.bytes)),
       lastopen |-> LastUnterminated(t.mode, t.bytes),
-      commentOnly |-> t.mode = "sse" /\ HasCommentOnlyBlock(t.bytes),
-      commentOnlyDelivered |-> /\ t.mode = "sse" /\ HasCommentOnlyBlock(t.bytes)
+      commentOnly |-> t.judgeSpec /\ t.mode = "sse" /\ HasCommentOnlyBlock(t.bytes),
+      commentOnlyDelivered |-> /\ t.judgeSpec /\ t.mode = "sse" /\ HasCommentOnlyBlock(t.bytes)
                                /\ \E i \in 1..Len(t.dec) : /\ t.dec[i].name = "iter_sse"
                                                            /\ t.dec[i].outs[t.dec[i].idx[1]].items = Events(t.bytes)]
+
+----------------------------------------------------------------------------
+(* Two streams in one process (StreamPair.tla).  trace:                                        *)
+(*   [id, kind = "pair", s : <<[mode, bytes, helper], [..]>>, runs : Seq([c1, c2, sched, mid]), *)
+(*    ref : <<out, out>> (each stream alone, unsplit), outs : <<Seq(out), Seq(out)>>,           *)
+(*    idx : <<Seq, Seq>>]                                                                       *)
+(* C18.streams_interfere: under some history (sequential or interleaved, the other stream       *)
+(* possibly abandoned mid-event) a stream that ended normally did not yield exactly the items   *)
+(* it yields alone, or an abandoned stream yielded something that is not a prefix of them.      *)
+
+IsPrefixOf(x, y) == Len(x) <= Len(y) /\ SubSeq(y, 1, Len(x)) = x
+HasAbort(sched, i) == \E k \in 1..Len(sched) : sched[k] = 10 * i + 2
+Alternations(sched) == Cardinality({k \in 1..(Len(sched) - 1) : sched[k] \div 10 # sched[k + 1] \div 10})
+
+PairSide(t, i) ==
+  LET N == Len(t.runs)
+      me == t.s[i]
+      ref == t.ref[i]
+      o(r) == t.outs[i][t.idx[i][r]]
+      ok(r) == IF HasAbort(t.runs[r].sched, i)
+               THEN o(r).err = "aborted" /\ IsPrefixOf(o(r).items, ref.items)
+               ELSE o(r) = ref
+      bad == {r \in 1..N : ~ok(r)}
+      M == Meanings(me.helper, "utf8", me.mode, me.bytes)
+      rec(clause, r, err, hist, oa, sa) ==
+        [clause |-> clause, side |-> i, dec |-> me.helper, other |-> t.s[3 - i].helper, history |-> hist,
+         otherAborted |-> oa, selfAborted |-> sa, err |-> err, run |-> r, exp |-> ref.items, nbad |-> Cardinality(bad)]
+  IN (IF bad = {} THEN {}
+      ELSE LET r == CHOOSE x \in bad : \A y \in bad : x <= y
+               sch == t.runs[r].sched
+           IN {rec("C18.streams_interfere", r, o(r).err, IF Alternations(sch) <= 1 THEN "sequential" ELSE "interleaved",
+                   HasAbort(sch, 3 - i), HasAbort(sch, i))})
+     \cup
+     (IF ref.err = "none" /\ ref.items \in M THEN {}
+      ELSE {rec("C18.differs_from_spec", 0, ref.err, "alone", FALSE, FALSE)})
+
+PairVerdict(t) ==
+  LET N == Len(t.runs) IN
+  [id |-> t.id,
+   kind |-> "pair",
+   fails |-> <<PairSide(t, 1), PairSide(t, 2)>>,
+   nruns |-> N,
+   nmid |-> Cardinality({r \in 1..N : t.runs[r].mid}),
+   nseq |-> Cardinality({r \in 1..N : Alternations(t.runs[r].sched) <= 1}),
+   nabort |-> Cardinality({r \in 1..N : HasAbort(t.runs[r].sched, 1)})]
 
 Init == tid \in 1..Len(Traces) /\ done = FALSE
 Judge ==
   /\ ~done
   /\ done' = TRUE
   /\ UNCHANGED tid
-  /\ PrintT("VERDICT " \o ToJson(Verdict(Traces[tid])))
+  /\ PrintT("VERDICT " \o ToJson(IF Traces[tid].kind = "pair" THEN PairVerdict(Traces[tid]) ELSE Verdict(Traces[tid])))
 Spec == Init /\ [][Judge]_<<tid, done>>
 =============================================================================
